@@ -923,8 +923,16 @@ def build_phases(cfg):
     ALL = tuple(range(NU))
     KG = ('kg',)
     P = Plan
+    # arithmetic over two comparisons (3 nodes): the representative binop of the reduced 3-node set is '-', which raises
+    # for two truth-value arrays and falls back to the interpreter, whereas + and * of two boolean arrays are logical
+    # or / and - a different code path of the compiled form.  Complete over (+ - *) x (> < =)^2 x leaves^4.
+    cl = ('a', 'b', '2') if cfg.quick else LEAVES
+    cmp2 = [('b', o, ('b', c1, l1, r1), ('b', c2, l2, r2)) for o in '+-*' for c1 in '><=' for c2 in '><='
+            for l1 in cl for r1 in cl for l2 in cl for r2 in cl]
     if cfg.quick:
         return [
+            ('C3', 'numpy', ('top', 'fn'), cmp2, P('len1 a in U11, b in B3', 1, ALL, SUB_B3)),
+            ('C3T', 'torch', ('top',), cmp2, P('len1 a in U6, b in B2', 1, SUB6, SUB_B2)),
             # every expression with <= 1 operator node, everywhere, every binding, every length-2 history
             ('H2', 'numpy', POSITIONS, e01, P('len2 a,b in U11, both styles', 2, ALL, ALL)),
             # every expression with 2 operator nodes, bare and as a function body
@@ -935,6 +943,8 @@ def build_phases(cfg):
             ('T', 'torch', POSITIONS, e01, P('len2 a in U6, b in B2, both styles', 2, SUB6, SUB_B2)),
         ]
     return [
+        ('C3', 'numpy', ('top', 'fn'), cmp2, P('len1 a in U11, b in B3', 1, ALL, SUB_B3)),
+        ('C3T', 'torch', ('top',), cmp2, P('len1 a in U6, b in B2', 1, SUB6, SUB_B2)),
         ('H2', 'numpy', POSITIONS, e01, P('len2 a,b in U11, both styles', 2, ALL, ALL)),
         ('S2', 'numpy', POSITIONS, e2, P('len1 a,b in U11', 1, ALL, ALL)),
         ('S3', 'numpy', ('top',), red[3], P('len1 a in U11, b in B2', 1, ALL, SUB_B2)),
